@@ -3071,3 +3071,50 @@ def fold_fresh_constant_attributes(modules):
                 ast.fix_missing_locations(fn)
                 log.append(('%s.%s' % (m.name, fn.name), [], 'reads of new attributes that only ever hold one literal written as that literal: %s' % ', '.join(sorted(consts))))
     return log
+
+
+def canonical_index_probe(modules):
+    """`try: x = D.popleft()` (or D.pop() / D[0] / D[-1]) `except IndexError: H` with nothing else in the try is the test-then-take form written the other way
+    round: `if len(D) != 0: x = D.popleft() else: H`.  (For another thread the one-step form is the stronger one; for the rules about *which* element is taken, and
+    what happens when there is none, the two say the same.)"""
+    def plain(e):
+        while isinstance(e, ast.Attribute):
+            e = e.value
+        return isinstance(e, ast.Name)
+    log = []
+    for m in modules.values():
+        n = 0
+        for node in ast.walk(m.tree):
+            for fld in ('body', 'orelse', 'finalbody'):
+                sub = getattr(node, fld, None)
+                if not (isinstance(sub, list) and sub and all(isinstance(x, ast.stmt) for x in sub)):
+                    continue
+                for i, st in enumerate(sub):
+                    if not (isinstance(st, ast.Try) and not st.orelse and not st.finalbody and len(st.handlers) == 1 and len(st.body) == 1):
+                        continue
+                    h = st.handlers[0]
+                    if not (isinstance(h.type, ast.Name) and h.type.id == 'IndexError' and h.name is None):
+                        continue
+                    b = st.body[0]
+                    if not (isinstance(b, ast.Assign) and len(b.targets) == 1 and isinstance(b.targets[0], ast.Name)):
+                        continue
+                    v = b.value
+                    cont = None
+                    if isinstance(v, ast.Call) and isinstance(v.func, ast.Attribute) and v.func.attr in ('popleft', 'pop') and not v.args and not v.keywords and plain(v.func.value):
+                        cont = v.func.value
+                    elif isinstance(v, ast.Subscript) and plain(v.value) and isinstance(v.slice, (ast.Constant, ast.UnaryOp)):
+                        try:
+                            if ast.literal_eval(v.slice) in (0, -1):
+                                cont = v.value
+                        except (ValueError, SyntaxError):
+                            cont = None
+                    if cont is None:
+                        continue
+                    test = ast.Compare(left=ast.Call(func=ast.Name(id='len', ctx=ast.Load()), args=[copy.deepcopy(cont)], keywords=[]), ops=[ast.NotEq()],
+                                       comparators=[ast.Constant(value=0)])
+                    sub[i] = ast.copy_location(ast.If(test=test, body=[b], orelse=h.body), st)
+                    n += 1
+        if n:
+            ast.fix_missing_locations(m.tree)
+            log.append((m.name, [], '%d `try: x = D.popleft()/D[0] except IndexError` written as a length test' % n))
+    return log
